@@ -211,7 +211,8 @@ func runSdCase(c SdCase) (string, map[string]int) {
 		obs = append([]int{b2i(flag), b2i(fresh)}, rets...)
 	case 2:
 		cb := circuitbreaker.NewCircuitBreaker(circuitbreaker.Settings{Name: "sd", MaxRequests: uint32(c.Max), Interval: time.Minute, Timeout: time.Millisecond,
-			FailureThreshold: 1, SuccessThreshold: uint32(c.Max + 50)})
+			FailureThreshold: 1, SuccessThreshold: uint32(c.Max + 50),
+			OnStateChange: func(string, circuitbreaker.State, circuitbreaker.State) {}})
 		cb.Execute(func() error { return fmt.Errorf("trip") })
 		time.Sleep(3 * time.Millisecond) // open, timeout elapsed
 		codes := make([]int, c.N)
